@@ -26,7 +26,7 @@ CHECK = {
         {"file": "internal/index/builder/builder.go", "pattern": r">= 100_000\b", "replacement": ">= verifSnapshotThreshold()"},
     ],
     "campaigns": [
-        {"test": "TestVerifC08", "checks": {"quick": 1200, "thorough": 50000}, "shrinktime": "25s"},
+        {"test": "TestVerifC08", "checks": {"quick": 3000, "thorough": 50000}, "shrinktime": "25s"},
         {"test": "TestVerifC08Large", "checks": {"quick": 2, "thorough": 32}, "shards": {"quick": 2, "thorough": 16}, "shrinktime": "1s", "mem_gb": 8,
          "timeout": {"quick": 420, "thorough": 1800}},
         {"test": "TestVerifC08Fixed", "fixed": True, "checks": {"quick": 1, "thorough": 1}},
